@@ -186,6 +186,58 @@ def check_engine(ctx, F, b, fn, tag):
                       ('write not guarded by seek(SeekFrom::Start(op.offset)) Ok', sk_ok)] if not c)), term_loc(b, wb))
 
 
+def _bounds_test(F, body, leak_blocks):
+    """In `body`: a comparison of offset.saturating_add(len) (or checked_add(..).unwrap_or(MAX)) with basis_size whose
+    out-of-bounds edge cannot reach any block in `leak_blocks` (nor the next iteration).  -> (good, detail)"""
+    fl = flow_of(body)
+    cfg = fl.cfg
+    U64MAX = (1 << 64) - 1
+
+    def sat(os_):
+        os_ = [o for o in os_ if o.kind != 'comb']
+        calls = [o for o in os_ if o.kind == 'call']
+        rest = [o for o in os_ if o.kind != 'call']
+        return bool(calls) and all(o.key in ('core::num::<impl u64>::saturating_add', 'core::num::<impl u64>::checked_add') for o in calls) and \
+            all(o.kind == 'const' and o.key == U64MAX for o in rest)          # checked_add(..).unwrap_or(u64::MAX) saturates the same way
+
+    def bs(os_):
+        os_ = [o for o in os_ if o.kind != 'comb']
+        return bool(os_) and all(o.kind in ('param', 'upvar') and tuple(o.path)[-1:] == ('basis_size',) for o in os_)
+    cmp_blocks = []
+    for bi in cfg.reachable():
+        for st in body.blocks[bi]['stmts']:
+            rv = st['rv']
+            if rv['k'] == 'bin' and rv['op'] in ('Gt', 'Lt', 'Ge', 'Le'):
+                oa, ob = fl.origins(rv['ops'][0]), fl.origins(rv['ops'][1])
+                if (sat(oa) and bs(ob)) or (sat(ob) and bs(oa)):
+                    end_left = sat(oa)
+                    within_when = {('Gt', True): 'false', ('Ge', True): 'false', ('Lt', True): 'true', ('Le', True): 'true',
+                                   ('Gt', False): 'true', ('Ge', False): 'true', ('Lt', False): 'false', ('Le', False): 'false'}[(rv['op'], end_left)]
+                    strict_ok = (rv['op'], end_left) in (('Gt', True), ('Le', True), ('Lt', False), ('Ge', False))
+                    cmp_blocks.append((bi, st['dst']['l'], within_when, strict_ok))
+    good = False
+    detail = 'no comparison of offset.saturating_add(len) with self.basis_size found'
+    heads = set(cfg.loops().keys())
+    for (bi, l, within, strict_ok) in cmp_blocks:
+        oc = fl.outcomes(None, l)
+        out_edges = oc.get('true' if within == 'false' else 'false', set())
+        reach_from_bad = set()
+        for (s_, t_, lab) in out_edges:
+            reach_from_bad |= cfg.reach(t_)
+        leaks = (set(leak_blocks) | heads) & reach_from_bad
+        sat_ok = False
+        for cb, ct in fl.calls(lambda c: c.endswith('saturating_add') or c.endswith('checked_add')):
+            a0, a1 = fl.origins(ct['args'][0]), fl.origins(ct['args'][1])
+            if any(tuple(o.path)[-1:] == ('offset',) for o in a0 | a1) and any(tuple(o.path)[-1:] == ('len',) for o in a0 | a1):
+                sat_ok = True
+        if out_edges and not leaks and strict_ok and sat_ok:
+            good = True
+        else:
+            detail = 'out-of-bounds edge %s; leaks to the accepting result / next iteration: %s; comparison admits end==basis_size only: %s; operands offset+len: %s' % (
+                bool(out_edges), sorted(leaks), strict_ok, sat_ok)
+    return good, detail
+
+
 def check_validate(ctx, F):
     b = F.body('delta::Delta::validate')
     if b is None:
@@ -193,56 +245,68 @@ def check_validate(ctx, F):
     fl = flow_of(b)
     cfg = fl.cfg
     oks = ok_assign_blocks(b, 'Ok')
-    # the loop ranges over self.ops
-    iters = [(bb, t) for bb, t in fl.calls_to('std::iter::IntoIterator::into_iter')
-             if any(o.kind == 'param' and o.key == 1 and o.path[:1] == ('ops',) for o in fl.origins(t['args'][0]))]
+    is_ops = lambda op_: any(o.kind == 'param' and o.key == 1 and tuple(o.path)[:1] == ('ops',) for o in fl.origins(op_))
+    # form 1: an explicit loop over self.ops
+    iters = [(bb, t) for bb, t in fl.calls_to('std::iter::IntoIterator::into_iter') if is_ops(t['args'][0])]
     nexts = fl.calls_to('std::iter::Iterator::next')
-    # the bound comparison: Gt(end, self.basis_size) with end from saturating_add(offset, len) / checked_add
-    cmp_blocks = []
-    for bi in cfg.reachable():
-        for st in b.blocks[bi]['stmts']:
-            rv = st['rv']
-            if rv['k'] == 'bin' and rv['op'] in ('Gt', 'Lt', 'Ge', 'Le'):
-                oa = fl.origins(rv['ops'][0])
-                ob = fl.origins(rv['ops'][1])
-                sat = lambda os_: bool(os_) and all(o.kind == 'call' and o.key in ('core::num::<impl u64>::saturating_add', 'core::num::<impl u64>::checked_add') for o in os_)
-                bs = lambda os_: bool(os_) and all(o.kind == 'param' and o.key == 1 and o.path[-1:] == ('basis_size',) for o in os_)
-                if (sat(oa) and bs(ob)) or (sat(ob) and bs(oa)):
-                    # which edge means "within bounds"?
-                    end_left = sat(oa)
-                    within_when = {('Gt', True): 'false', ('Ge', True): 'false', ('Lt', True): 'true', ('Le', True): 'true',
-                                   ('Gt', False): 'true', ('Ge', False): 'true', ('Lt', False): 'false', ('Le', False): 'false'}[(rv['op'], end_left)]
-                    strict_ok = (rv['op'], end_left) in (('Gt', True), ('Le', True), ('Lt', False), ('Ge', False))
-                    cmp_blocks.append((bi, st['dst']['l'], within_when, strict_ok, sat))
-    good = False
-    detail = 'no comparison of offset.saturating_add(len) with self.basis_size found'
-    for (bi, l, within, strict_ok, sat) in cmp_blocks:
-        oc = fl.outcomes(None, l)
-        out_edges = oc.get('true' if within == 'false' else 'false', set())
-        # on the out-of-bounds edge no Ok return may be reachable... (it must return Err)
-        reach_from_bad = set()
-        for (s, t, lab) in out_edges:
-            reach_from_bad |= cfg.reach(t)
-        heads = set(cfg.loops().keys())
-        leaks = (set(oks) | heads) & reach_from_bad
-        # the saturating_add operands are the op's offset and len
-        sat_ok = False
-        for cb, ct in fl.calls(lambda c: c.endswith('saturating_add') or c.endswith('checked_add')):
-            a0 = fl.origins(ct['args'][0])
-            a1 = fl.origins(ct['args'][1])
-            if any(o.path[-1:] == ('offset',) for o in a0 | a1) and any(o.path[-1:] == ('len',) for o in a0 | a1):
-                sat_ok = True
-        if out_edges and not leaks and strict_ok and sat_ok:
-            good = True
-        else:
-            detail = 'out-of-bounds edge %s; leaks to Ok/next-iteration: %s; comparison admits end==basis_size only: %s; operands offset+len: %s' % (
-                bool(out_edges), sorted(leaks), strict_ok, sat_ok)
-    # every Ok return is after loop exhaustion (None edge of next) of an iteration over self.ops
+    good, detail = _bounds_test(F, b, oks)
     exhausted = bool(iters) and bool(nexts) and all(any(fl.guarded_by(ob, nb, 'None') for nb, _ in nexts) for ob in oks) and bool(oks)
+    if not (good and exhausted):
+        # form 2: a search over self.ops (`find_map` / `find` / `any` / `position`) whose closure singles out the out-of-bounds copy;
+        # Ok only when the search found nothing
+        for qb, qt in fl.calls(lambda c: c.split('::')[-1] in ('find_map', 'find', 'any', 'position')):
+            src = [o for o in iterated_source(fl, qt['args'][0])]
+            if not any(o.kind == 'param' and o.key == 1 and tuple(o.path)[:1] == ('ops',) for o in src):
+                continue
+            last = callee(qt).split('::')[-1]
+            oc = fl.outcomes(qb)
+            none_e = oc.get('false', set()) if last == 'any' else oc.get('None', set())
+            if not none_e or not all(cfg.edges_guard(none_e, ob) for ob in oks) or not oks:
+                continue
+            for o in fl.origins(qt['args'][1]):
+                cb_ = F.body(o.key) if o.kind == 'agg' else None
+                if cb_ is None:
+                    continue
+                cfl = flow_of(cb_)
+                # "not this one" results of the closure: None / false
+                rejects = []
+                for bi in cfl.cfg.reachable():
+                    for st in cb_.blocks[bi]['stmts']:
+                        if st['dst']['l'] == 0 and not st['dst']['proj']:
+                            rv = st['rv']
+                            if (rv['k'] == 'agg' and rv.get('vname') == 'None') or (rv['k'] == 'use' and rv['ops'][0]['k'] == 'const' and rv['ops'][0].get('v') in (0, False)):
+                                rejects.append(bi)
+                g2, d2 = _bounds_test(F, cb_, rejects)
+                if g2 and rejects:
+                    good, exhausted, detail = True, True, 'search over self.ops'
+                else:
+                    detail = d2
     ctx.check(good and exhausted, 'C05.R5', 'validate',
-              'Ok only after the iterator over self.ops is exhausted; out-of-bounds copy returns Err',
+              'Ok only after every op of self.ops was examined; an out-of-bounds copy leads to Err',
               'Delta::validate can return Ok for a delta with a copy beyond basis_size: %s; Ok only after exhausting self.ops: %s' % (detail, exhausted),
               loc(b, b.lo))
+
+
+def iterated_source(fl, op):
+    """origins of the collection behind an iterator operand, through element-preserving adaptors"""
+    b = fl.body
+    out, work, seen = set(), [op], set()
+    for _ in range(8):
+        nxt = []
+        for o_ in work:
+            for o in fl.origins(o_):
+                k = (o.kind, o.key, o.bb, tuple(o.path))
+                if k in seen:
+                    continue
+                seen.add(k)
+                if o.kind == 'call' and str(o.key).split('::')[-1] in WHOLE_ITER and o.bb is not None:
+                    nxt.append(b.blocks[o.bb]['term']['args'][0])
+                else:
+                    out.add(o)
+        work = nxt
+        if not work:
+            break
+    return out
 
 
 def check_cli(ctx, F):
